@@ -177,10 +177,14 @@ def word_case(w):
             if i + 1 < n and w[i + 1] == "\\":
                 # special character
                 j = i + 2
+                if j < n and w[j] in NAME_WS:
+                    return UNSPEC  # '{\\ ' : BibTeX does not allow whitespace escaping; not defined by the statement
                 if j < n and w[j].isalpha():
                     while j < n and w[j].isalpha():
                         j += 1
                     # the character ending the control sequence is not looked at for the case
+                    if j < n and w[j] == "\\":
+                        return UNSPEC  # a second control sequence inside the special character: not defined by the statement
                     if j < n and w[j] not in "{}":
                         j += 1
                 elif j < n:
